@@ -361,6 +361,16 @@ V("c10-tag-any-alter-set", A, "C10", "C10.d",
 V("c10-neutral-drop-kind-no-upper", N, ["C10", "C02"], None,
   ("transforms", '        or kind.upper() != "SCHEMA"\n', '        or kind != "SCHEMA"\n'))
 
+V("c03-use-database-keeps-schema-name", A, "C03", "C03.c",
+  ("cursor", "            # duckdb now uses the database's main schema, ie: there's no current (snowflake) schema\n            self._conn.schema = None\n",
+   "            # duckdb now uses the database's main schema, ie: there's no current (snowflake) schema\n"))
+V("c05-result-batches-guard-negated", A, "C05", "C05.f",
+  ("cursor", "    def get_result_batches(self) -> list[ResultBatch] | None:\n        if self._arrow_table is None:", "    def get_result_batches(self) -> list[ResultBatch] | None:\n        if self._arrow_table is not None:"))
+V("c18-neutral-mkdir-db-path", N, "C18", None,
+  ("conn", "        self.db_path = Path(db_path) if db_path else None", "        self.db_path = Path(db_path) if db_path else None\n        if self.db_path:\n            self.db_path.mkdir(parents=True, exist_ok=True)"))
+V("c15-neutral-inline-flag", N, "C15", None,
+  ("variables", '            sql = re.sub(rf"\\${name}(?!\\w)", lambda _, v=value: v, sql, flags=re.IGNORECASE)', '            sql = re.sub(rf"(?i)\\${name}(?!\\w)", lambda _, v=value: v, sql)'))
+
 # ---------------------------------------------------------------- C01
 V("c01-float-stays-float", A, "C01", "C01.a", ("transforms", '        expression.args["this"] = exp.DataType.Type.DOUBLE\n', '        expression.args["this"] = exp.DataType.Type.FLOAT\n'))
 V("c01-drop-float-stage", A, "C01", "C01.a", ("cursor", "            .transform(transforms.float_to_double)\n", ""))
